@@ -15,6 +15,11 @@ also computes WHICH variables a group resolves (`strongCouplingVars`, compared w
 real MDA reports) and replays MDAChain: which components get an inner MDA (`requiresMda`), the settings the
 inner MDAs receive (`innerSettings`), their residual histories and the returned data (`chainExecute`).
 
+Round 2: MDASequential over sub-MDA objects with their own tolerance / budget (replayed by `seqExecute`), inner
+settings carrying coarse values of their own, and sessions of several MDA objects alive in one process
+(harness/c06_session.py; settings of every object and of its inner MDAs compared with the model's `World` after every
+operation, every judged object re-run alone).
+
 Oracle (from the property text, independent of model and code): every harness discipline is re-executed
 by an independent pure-Python twin on the returned data (residual <= bound, positive assertion) and the
 returned couplings are compared with the exact `Fraction` solution of the affine system (or a
@@ -362,6 +367,24 @@ def gen_mda(rng: common.Rng, system: dict[str, Any], cls: str | None = None) -> 
     if cls == "MDASequential":
         m["seq"] = [rng.pick(["MDAJacobi", "MDAGaussSeidel"]), rng.pick(["MDAGaussSeidel", "MDANewtonRaphson", "MDAJacobi"])]
         m["seq_first_iter"] = rng.pick([1, 2, 3, 5])
+        if rng.chance(0.25):
+            m["seq"].insert(1, rng.pick(["MDAJacobi", "MDAGaussSeidel"]))
+        # the sub-MDA objects carry their OWN settings (an MDASequential cascades nothing): a starter may be limited by
+        # its iteration budget, or by a tolerance looser than the one requested from the sequence (and reach it), or be
+        # tighter; the last stage is at least as accurate as the sequence and has the budget to converge
+        stages = []
+        for _ in m["seq"][:-1]:
+            mode = rng.pick(["loose", "loose", "loose", "budget", "loose+budget", "tighter"])
+            if mode == "loose":
+                stages.append({"loose": rat(Fraction(1, 2 ** rng.pick([2, 3, 4, 6, 8]))), "max_iter": 60})
+            elif mode == "budget":
+                stages.append({"div": 1, "max_iter": rng.pick([1, 2, 3, 5])})
+            elif mode == "loose+budget":
+                stages.append({"loose": rat(Fraction(1, 2 ** rng.pick([2, 4, 6]))), "max_iter": rng.pick([1, 2, 3, 5])})
+            else:
+                stages.append({"div": 4, "max_iter": 60})
+        stages.append({"div": rng.pick([1, 1, 4]), "max_iter": 100})
+        m["stages"] = stages
     if cls == "MDAQuasiNewton" or m.get("inner") == "MDAQuasiNewton":
         m["method"] = rng.pick(["hybr", "hybr", "broyden1", "broyden2", "lm", "krylov", "df-sane"])
         m["use_gradient"] = rng.chance(0.5)
@@ -388,6 +411,14 @@ def gen_mda(rng: common.Rng, system: dict[str, Any], cls: str | None = None) -> 
         extra["inner_form"] = "model"  # inner_mda_settings=<InnerClass>.Settings(...) instead of a dictionary
     if cls == "MDAGSNewton" and rng.chance(0.4):
         extra["inner_form"] = "model"  # gauss_seidel_settings / newton_settings as Pydantic models
+    if cls in ("MDAChain", "MDAGSNewton") and rng.chance(0.3):
+        # the inner settings carry their own (coarse) tolerance / iteration budget: the composed MDA's prevail
+        given: dict[str, Any] = {}
+        if rng.chance(0.7):
+            given["tolerance"] = rat(Fraction(1, 2 ** rng.pick([1, 3, 6])))
+        if rng.chance(0.7) or not given:
+            given["max_mda_iter"] = rng.pick([1, 2, 3])
+        extra["inner_given"] = given
     if rng.chance(0.15) and cls != "MDASequential":
         extra["api"] = "create_mda"  # gemseo.create_mda instead of MDAFactory().create
     if extra:
@@ -442,7 +473,7 @@ def gen_case(
         # the other classes. MDAJacobi / MDAGaussSeidel / MDAQuasiNewton / Jacobi-GS sequences are ALSO used
         # directly on systems with several strongly connected components (inside the property's quantifier).
         inner = {"MDASequential": "MDAGaussSeidel"}.get(m["cls"], m["cls"])
-        for k in ("seq", "seq_first_iter"):
+        for k in ("seq", "seq_first_iter", "stages"):
             m.pop(k, None)
         m["inner"] = inner
         m["cls"] = "MDAChain"
@@ -493,6 +524,24 @@ def build_disciplines(case: dict[str, Any]):
         }
         discs.append(CplDisc(d["name"], {i: sizes[i] for i in d["ins"]}, outs, kind=d["kind"]))
     return discs
+
+
+def stage_tolerance(m: dict[str, Any], st: dict[str, Any]) -> Fraction:
+    """The tolerance of a sub-MDA of an MDASequential: an absolute loose one, or the one of the sequence / `div`."""
+    if "loose" in st:
+        return Fraction(st["loose"])
+    return Fraction(m["tol"]) / int(st.get("div", 1))
+
+
+def inner_given(m: dict[str, Any]) -> dict[str, Any]:
+    """BaseMDASettings fields explicitly given for the inner MDAs of a composition (the composed MDA's prevail)."""
+    g = m.get("extra", {}).get("inner_given") or {}
+    out: dict[str, Any] = {}
+    if "tolerance" in g:
+        out["tolerance"] = float(Fraction(g["tolerance"]))
+    if "max_mda_iter" in g:
+        out["max_mda_iter"] = int(g["max_mda_iter"])
+    return out
 
 
 def _solver_settings(m: dict[str, Any]) -> dict[str, Any]:
@@ -591,17 +640,30 @@ def build_mda(case: dict[str, Any]):
             cls,
             listed,
             ctor={
-                "gauss_seidel_settings": inner_model("MDAGaussSeidel", {**_solver_settings(m)}),
-                "newton_settings": inner_model("MDANewtonRaphson", {**_solver_settings(m)}),
+                "gauss_seidel_settings": inner_model("MDAGaussSeidel", {**_solver_settings(m), **inner_given(m)}),
+                "newton_settings": inner_model("MDANewtonRaphson", {**_solver_settings(m), **inner_given(m)}),
             },
             **base,
         )
         # the first MDA of the sequence only performs a few sweeps
         mda.mda_sequence[0].settings.max_mda_iter = int(m["gs_iter"])
     elif cls == "MDASequential":
-        first = fac.create(m["seq"][0], listed, **{**base, "max_mda_iter": int(m["seq_first_iter"])}, **_solver_settings(m))
-        second = fac.create(m["seq"][1], listed, **base, **_solver_settings(m))
-        mda = create(cls, listed, ctor={"mda_sequence": [first, second]}, **base)
+        if m.get("stages"):
+            # sub-MDA objects built with their own tolerance / max_mda_iter
+            sequence = [
+                fac.create(
+                    name,
+                    listed,
+                    **{**base, "tolerance": float(stage_tolerance(m, st)), "max_mda_iter": int(st["max_iter"])},
+                    **_solver_settings(m),
+                )
+                for name, st in zip(m["seq"], m["stages"])
+            ]
+        else:
+            first = fac.create(m["seq"][0], listed, **{**base, "max_mda_iter": int(m["seq_first_iter"])}, **_solver_settings(m))
+            second = fac.create(m["seq"][1], listed, **base, **_solver_settings(m))
+            sequence = [first, second]
+        mda = create(cls, listed, ctor={"mda_sequence": sequence}, **base)
     elif cls == "MDAChain":
         inner = m["inner"]
         if inner in SOLVER_CLASSES:
@@ -610,6 +672,7 @@ def build_mda(case: dict[str, Any]):
             inner_settings = qn({})
         else:
             inner_settings = {}
+        inner_settings = {**inner_settings, **inner_given(m)}
         mda = create(cls, listed, **base, inner_mda_name=inner, inner_mda_settings=inner_model(inner, inner_settings))
     else:
         raise ValueError(cls)
@@ -621,6 +684,47 @@ def build_mda(case: dict[str, Any]):
     return mda, discs
 
 
+def exec_once(mda, case: dict[str, Any], run: dict[str, Any], inner_seen: dict[int, int], first: bool = True) -> dict[str, Any]:
+    """One `mda.execute` on the inputs of `run`: the observable behaviour."""
+    sizes = case["vars"]
+    inputs = {"x": np.array([float(Fraction(t)) for t in run["x"]])}
+    for v, vals in run.get("y0", {}).items():
+        if v in mda.io.input_grammar:
+            inputs[v] = np.array([float(Fraction(t)) for t in vals])
+    r: dict[str, Any] = {}
+    n_hist = len(getattr(mda, "residual_history", []))
+    try:
+        out = mda.execute(inputs)
+        r["out"] = {k: [float(t) for t in np.atleast_1d(out[k])] for k in sizes if k in out}
+        nr = out.get(mda.NORMALIZED_RESIDUAL_NORM)
+        r["normed"] = None if nr is None else float(nr[-1])
+        r["history"] = [float(t) for t in mda.residual_history[n_hist:]]
+        r["reported_normed"] = float(mda.normed_residual)
+        r["inner_hist"] = []
+        for j, im in enumerate(getattr(mda, "inner_mdas", None) or []):
+            h = [float(t) for t in im.residual_history]
+            r["inner_hist"].append(h[inner_seen.get(j, 0):] if len(h) >= inner_seen.get(j, 0) else h)
+            inner_seen[j] = len(h)
+        if first and getattr(mda, "mda_sequence", None):
+            # the sub-MDAs of a sequence reset their history at each run: after the FIRST execution of the sequence
+            # the history of a stage is what it did during that execution (empty: not executed)
+            r["stage_hist"] = [[float(t) for t in im.residual_history] for im in mda.mda_sequence]
+    except Exception as e:  # noqa: BLE001
+        r["exc"] = common.exc_class(e) + ": " + repr(e)[:200]
+        r["tb"] = common.short_tb(e)
+    return r
+
+
+def settings_view(mda) -> dict[str, Any]:
+    """The settings an MDA object and its inner MDAs / stages hold (public `settings` models)."""
+    inner = list(getattr(mda, "inner_mdas", None) or getattr(mda, "mda_sequence", None) or [])
+    return {
+        "tolerance": float(mda.settings.tolerance),
+        "max_mda_iter": int(mda.settings.max_mda_iter),
+        "subs": [[float(im.settings.tolerance), int(im.settings.max_mda_iter)] for im in inner],
+    }
+
+
 def run_impl(case: dict[str, Any]) -> dict[str, Any]:
     """Run the real MDA on every run of the case; return the observable behaviour."""
     obs: dict[str, Any] = {"runs": []}
@@ -629,33 +733,16 @@ def run_impl(case: dict[str, Any]) -> dict[str, Any]:
     except Exception as e:  # noqa: BLE001
         obs["build_exc"] = common.exc_class(e) + ": " + repr(e)[:200]
         return obs
-    sizes = case["vars"]
     inner_seen: dict[int, int] = {}
-    for run in case["runs"]:
-        inputs = {"x": np.array([float(Fraction(t)) for t in run["x"]])}
-        for v, vals in run.get("y0", {}).items():
-            if v in mda.io.input_grammar:
-                inputs[v] = np.array([float(Fraction(t)) for t in vals])
-        r: dict[str, Any] = {}
-        n_hist = len(getattr(mda, "residual_history", []))
-        try:
-            out = mda.execute(inputs)
-            r["out"] = {k: [float(t) for t in np.atleast_1d(out[k])] for k in sizes if k in out}
-            nr = out.get(mda.NORMALIZED_RESIDUAL_NORM)
-            r["normed"] = None if nr is None else float(nr[-1])
-            r["history"] = [float(t) for t in mda.residual_history[n_hist:]]
-            r["reported_normed"] = float(mda.normed_residual)
-            r["inner_hist"] = []
-            for j, im in enumerate(getattr(mda, "inner_mdas", None) or []):
-                h = [float(t) for t in im.residual_history]
-                r["inner_hist"].append(h[inner_seen.get(j, 0):] if len(h) >= inner_seen.get(j, 0) else h)
-                inner_seen[j] = len(h)
-        except Exception as e:  # noqa: BLE001
-            r["exc"] = common.exc_class(e) + ": " + repr(e)[:200]
-            r["tb"] = common.short_tb(e)
-        obs["runs"].append(r)
-    obs["tolerance"] = float(mda.settings.tolerance)
-    # what the MDA says it solves (public attributes): the strong couplings, and the inner MDAs of a composition
+    for ridx, run in enumerate(case["runs"]):
+        obs["runs"].append(exec_once(mda, case, run, inner_seen, first=ridx == 0))
+    obs.update(describe(mda))
+    return obs
+
+
+def describe(mda) -> dict[str, Any]:
+    """What the MDA says it solves (public attributes): the strong couplings, and the inner MDAs of a composition."""
+    obs: dict[str, Any] = {"tolerance": float(mda.settings.tolerance)}
     try:
         obs["strong_couplings"] = sorted(mda.coupling_structure.strong_couplings)
         inner = list(getattr(mda, "inner_mdas", None) or getattr(mda, "mda_sequence", None) or [])
@@ -835,8 +922,11 @@ def documented_scale(case: dict[str, Any], sysm: System, run: dict[str, Any]) ->
     raise ValueError(sc)
 
 
-def oracle(case: dict[str, Any], obs: dict[str, Any]) -> list[tuple[str, str]]:
-    """Clauses of the property violated by the observed behaviour: list of (key, message)."""
+def oracle(case: dict[str, Any], obs: dict[str, Any], tols: list[Fraction] | None = None) -> list[tuple[str, str]]:
+    """Clauses of the property violated by the observed behaviour: list of (key, message).
+
+    `tols`: the tolerance requested from the MDA object at each execution, when it is assigned between executions
+    (default: the tolerance of the case)."""
     bad: list[tuple[str, str]] = []
     kc = case_class(case)
     if "build_exc" in obs:
@@ -851,6 +941,8 @@ def oracle(case: dict[str, Any], obs: dict[str, Any]) -> list[tuple[str, str]]:
     prev_out: dict[str, list[Fraction]] | None = None
     for ridx, (run, r) in enumerate(zip(case["runs"], obs["runs"])):
         tag = f"run{ridx}"
+        if tols is not None:
+            tol = tols[ridx]
         if "exc" in r:
             bad.append((f"{kc}:raises", f"{tag}: execute raised {r['exc']}"))
             prev_out = None
@@ -882,7 +974,7 @@ def oracle(case: dict[str, Any], obs: dict[str, Any]) -> list[tuple[str, str]]:
         scale = Fraction(math.isqrt(n_c) + 1) * max(Fraction(1), (1 + kb) * dmax)
         bound = tol * scale
         sol_bound = 2 * bound
-        if tight is None and ridx == 0 and case["mda"]["cls"] in SOLVER_CLASSES and not case.get("groups"):
+        if tight is None and tols is None and ridx == 0 and case["mda"]["cls"] in SOLVER_CLASSES and not case.get("groups"):
             tight = tol * documented_scale(case, sysm, run)
         if tight is not None:
             # elementary solvers: the documented scaling of the first residual ever computed is known exactly;
@@ -946,6 +1038,9 @@ def replayable(case: dict[str, Any]) -> bool:
     if m["cls"] == "MDAChain":
         extra = m.get("extra", {})
         return m.get("inner") in ALGO_TOKEN and m["accel"] == "NoTransformation" and not extra.get("initialize_defaults")
+    if m["cls"] == "MDASequential":
+        # a sequence of elementary sub-MDAs with their own settings, on one strongly connected component
+        return bool(m.get("stages")) and all(c in ALGO_TOKEN for c in m["seq"]) and m["accel"] == "NoTransformation" and case["shape"] == "strong"
     if m["cls"] not in ALGO_TOKEN or m["accel"] not in ACCEL_TOKEN:
         return False
     return m["cls"] == "MDAJacobi" or case["shape"] == "strong"
@@ -1062,9 +1157,12 @@ def _settings_tokens(case: dict[str, Any]) -> tuple[str, str]:
     given = []
     if m.get("inner") in SOLVER_CLASSES:
         given.append(f"over_relaxation_factor={m['omega']}")
+    explicit = m.get("extra", {}).get("inner_given") or {}
+    given += [f"{k}={explicit[k]}" for k in ("tolerance", "max_mda_iter") if k in explicit]
     if m.get("extra", {}).get("inner_form") == "model":
         # dict(<Pydantic model>) holds every field, the untouched ones with their default values
-        given += ["tolerance=1/1000000", "max_mda_iter=20", "warm_start=0"]
+        defaults = {"tolerance": "1/1000000", "max_mda_iter": "20", "warm_start": "0"}
+        given += [f"{k}={v}" for k, v in defaults.items() if k not in explicit]
     return chain, ",".join(given) or "[]"
 
 
@@ -1090,6 +1188,16 @@ def protocol_lines(case: dict[str, Any]) -> list[str]:
             )
         consts, start = _consts_start(sysm, case["runs"][0])
         lines.append(f"chain {int(m['max_iter']) + 2} {common.rats(consts)} {common.rats(start)}")
+        return lines
+    if m["cls"] == "MDASequential":
+        lines = [_rows_line(case, sysm), _io_line(sysm, list(case["order"]))[0]]
+        for name, st in zip(m["seq"], m["stages"]):
+            lines.append(
+                f"stage {ALGO_TOKEN[name]} auto auto auto {rat(stage_tolerance(m, st))} {int(st['max_iter'])} "
+                f"{SCALINGS.index(m['scaling'])} {m['omega']} none {1 if m['warm'] else 0}"
+            )
+        consts, start = _consts_start(sysm, case["runs"][0])
+        lines.append(f"seq {m['tol']} 103 {common.rats(consts)} {common.rats(start)}")
         return lines
     cpl = sysm.couplings
     if case["shape"] != "strong" and not has_weak_disciplines(case):
@@ -1132,14 +1240,27 @@ def protocol_lines(case: dict[str, Any]) -> list[str]:
 
 def parse_run_answer(ans: str) -> dict[str, Any]:
     toks = ans.split(" ")
-    if len(toks) != 5 or not toks[1].startswith("it="):
+    if len(toks) != 6 or not toks[1].startswith("it="):
         return {"outcome": "bad:" + ans[:60]}
 
     def lst(t: str) -> list[Fraction]:
         t = t.split("=", 1)[1]
         return [] if t == "[]" else [Fraction(v) for v in t.split(",")]
 
-    return {"outcome": toks[0], "it": int(toks[1][3:]), "hist": lst(toks[2]), "raw": lst(toks[3]), "out": lst(toks[4])}
+    return {"outcome": toks[0], "it": int(toks[1][3:]), "hist": lst(toks[2]), "raw": lst(toks[3]), "out": lst(toks[4]), "amp": ref_amplification(toks[5])}
+
+
+def ref_amplification(tok: str) -> float:
+    """`ref=c:<min |c_i|>` / `ref=g:<min |r0_i|^2>` -> by how much the component-wise / variable-wise scaling of the
+    model amplifies the rounding noise of a residual (1 / smallest reference)."""
+    try:
+        kind, val = tok.split("=", 1)[1].split(":", 1)
+        q = Fraction(val)
+        if q <= 0:
+            return 1.0
+        return 1.0 / (float(q) if kind == "c" else fsqrt(q))
+    except (ValueError, IndexError, ZeroDivisionError):
+        return 1.0
 
 
 def fsqrt(q: Fraction) -> float:
@@ -1234,7 +1355,7 @@ def compare_chain_with_model(case: dict[str, Any], obs: dict[str, Any], answers:
         tag = f"inner MDA {inner_obs[j]['discs']}"
         if not all(math.isfinite(h) for h in ih):
             return [f"{tag}: non-finite residual history in the code, model: {outcome}"]
-        inv_scale = max([fsqrt(h / w) for h, w in zip(hist, raw) if w > 0] + [1.0])
+        inv_scale = max([fsqrt(h / w) for h, w in zip(hist, raw) if w > 0] + [1.0, ref_amplification(toks[4]) if len(toks) > 4 else 1.0])
         noise = 2.0**-38 * (1 + ymax) * inv_scale
         safe = True
         for k, (a, b) in enumerate(zip(ih, hist)):
@@ -1260,6 +1381,71 @@ def compare_chain_with_model(case: dict[str, Any], obs: dict[str, Any], answers:
     return diffs
 
 
+def compare_seq_with_model(case: dict[str, Any], obs: dict[str, Any], answers: list[str]) -> list[str]:
+    """MDASequential against `seqExecute` (first execution): which sub-MDAs are executed, their residual histories
+    and the returned data. A decision (stop of a sub-MDA on ITS tolerance, stop of the sequence on the tolerance of
+    the SEQUENCE) is compared only when the model's residual is outside the rounding band of that tolerance."""
+    m = case["mda"]
+    sysm = System(case)
+    diffs = compare_structure(case, obs, answers[1], list(case["order"]), obs.get("strong_couplings"))
+    if diffs:
+        return diffs
+    r = obs["runs"][0]
+    if "exc" in r:
+        return [f"code raised {r['exc']}"]
+    ans = answers[-1]
+    if not ans.startswith("out="):
+        return [f"driver answered {ans[:80]} to the seq line"]
+    segs = ans.split(" ; ")
+    out_tok = segs[0].split("=", 1)[1]
+    mod_out = [] if out_tok == "[]" else [Fraction(v) for v in out_tok.split(",")]
+    sh = r.get("stage_hist")
+    if sh is None or len(sh) != len(m["stages"]):
+        return [f"the code reports {None if sh is None else len(sh)} sub-MDAs, the case has {len(m['stages'])}"]
+    names_sorted = sorted(sysm.outputs)
+    flat = [v for o in names_sorted for v in r["out"].get(o, [])]
+    ymax = max([abs(v) for v in flat] + [abs(float(v)) for v in mod_out] + [1.0])
+    outer = float(Fraction(m["tol"]))
+    for j, seg in enumerate(segs[1:]):
+        toks = seg.split(" ")
+        outcome = toks[0]
+        hist = [Fraction(v) for v in toks[2].split("=", 1)[1].split(",")] if toks[2] != "hist=[]" else []
+        raw = [Fraction(v) for v in toks[3].split("=", 1)[1].split(",")] if toks[3] != "raw=[]" else []
+        ih = sh[j]
+        tag = f"sub-MDA {j} ({m['seq'][j]}, tolerance {float(stage_tolerance(m, m['stages'][j])):.3e}, max_mda_iter {m['stages'][j]['max_iter']})"
+        if not all(math.isfinite(h) for h in ih):
+            return [f"{tag}: non-finite residual history in the code, model: {outcome}"]
+        if outcome == "capped":
+            return []
+        tol_j = float(stage_tolerance(m, m["stages"][j]))
+        inv_scale = max([fsqrt(h / w) for h, w in zip(hist, raw) if w > 0] + [1.0, ref_amplification(toks[4]) if len(toks) > 4 else 1.0])
+        noise = 2.0**-38 * (1 + ymax) * inv_scale
+        safe = True
+        for k, (a, b) in enumerate(zip(ih, hist)):
+            sb = fsqrt(b)
+            band = 2.0**-30 * sb + noise
+            if abs(sb - tol_j) <= 2 * band or (k == len(hist) - 1 and abs(sb - outer) <= 2 * band):
+                safe = False
+            if not abs(a - sb) <= band:
+                return [f"{tag}: normed residual of iteration {k + 1}: code {a!r}, model {sb!r} (band {band:.2e})"]
+        if not safe:
+            return []  # a decision within the rounding margin: what follows may legitimately differ
+        if len(ih) != len(hist):
+            if not ih:
+                return [f"{tag} is not executed by the code (the sequence stopped before it); the model executes it ({len(hist)} iterations, {outcome})"]
+            return [f"{tag}: code performed {len(ih)} iterations, model {len(hist)} ({outcome})"]
+    n_model = len(segs) - 1
+    later = [j for j in range(n_model, len(sh)) if sh[j]]
+    if later:
+        return [f"the code executes sub-MDA {later[0]} ({m['seq'][later[0]]}); in the model the sequence stops after sub-MDA {n_model - 1} (normed residual below the tolerance of the sequence {outer:.3e})"]
+    if len(flat) != len(mod_out):
+        return [f"returned data has {len(flat)} components, model {len(mod_out)}"]
+    for k, (a, b) in enumerate(zip(flat, mod_out)):
+        if not abs(a - float(b)) <= (2.0**-30 + 2.0**-36) * max(abs(float(b)), 1.0) + 2.0**-38 * (1 + ymax) * 64:
+            return [f"returned component {k}: code {a!r}, model {float(b)!r}"]
+    return []
+
+
 def compare_with_model(case: dict[str, Any], obs: dict[str, Any], answers: list[str]) -> list[str]:
     """Differences between the real MDA and the exact replay (`answers`: one per protocol line).
 
@@ -1273,6 +1459,8 @@ def compare_with_model(case: dict[str, Any], obs: dict[str, Any], answers: list[
     m = case["mda"]
     if m["cls"] == "MDAChain":
         return compare_chain_with_model(case, obs, answers)
+    if m["cls"] == "MDASequential":
+        return compare_seq_with_model(case, obs, answers)
     diffs: list[str] = []
     if case["shape"] == "strong":
         diffs += compare_structure(case, obs, answers[1], list(case["order"]), obs.get("strong_couplings"))
@@ -1302,7 +1490,7 @@ def compare_with_model(case: dict[str, Any], obs: dict[str, Any], answers: list[
             diffs.append(f"{tag}: model divides by zero in the acceleration, code history finite")
             break
         ymax = max([abs(v) for o in names for v in r["out"].get(o, [0.0])] + [abs(float(v)) for v in mod["out"]] + [1.0])
-        inv_scale = max([fsqrt(h / w) for h, w in zip(mod["hist"], mod["raw"]) if w > 0] + [1.0])
+        inv_scale = max([fsqrt(h / w) for h, w in zip(mod["hist"], mod["raw"]) if w > 0] + [1.0, mod["amp"]])
         noise = 2.0**-38 * (1 + ymax) * inv_scale * (8 if accelerated else 1)
         safe = True
         for k, (a, b) in enumerate(zip(ih, mod["hist"])):
@@ -1500,6 +1688,19 @@ def evaluate(res: Result, cases: list[dict[str, Any]], rng: common.Rng, scope: b
         res.count("settings-form=" + extra.get("form", "kwargs") + ("/inner-" + extra["inner_form"] if "inner_form" in extra else ""))
         if extra.get("api"):
             res.count("api=" + extra["api"])
+        for st in (m.get("stages") or [])[:-1]:
+            res.count(
+                "sequence-starter="
+                + ("looser-tolerance" if "loose" in st else "tolerance/" + str(st["div"]))
+                + ("/budget<=5" if st["max_iter"] <= 5 else "/budget=60")
+            )
+        if m.get("stages"):
+            res.count(f"sequence-last-stage=tolerance/{m['stages'][-1]['div']}")
+            sh = (obs.get("runs") or [{}])[0].get("stage_hist")
+            if sh is not None:
+                res.count(f"sequence-stages-executed={sum(1 for h in sh if h)}/{len(sh)}")
+        if extra.get("inner_given"):
+            res.count("inner-settings-carry-own=" + "+".join(sorted(extra["inner_given"])))
         if kc.startswith("elementary-mda-on-weak-couplings"):
             res.count("direct-on-weak=" + m["cls"])
         if kc.startswith("elementary-mda-on-several-groups"):
@@ -1563,7 +1764,7 @@ def evaluate(res: Result, cases: list[dict[str, Any]], rng: common.Rng, scope: b
                         "model_answers": [x[:2000] for x in answers[a:b]],
                         "impl": obs,
                         "diffs": diffs,
-                        "correspondence": "Driver/C06.lean `io`/`cfg`/`run` (GV.C06.strongCouplingVars, GV.C06.execute) or `grp`/`chain` (GV.C06.innerSettings, requiresMda, chainExecute)",
+                        "correspondence": "Driver/C06.lean `io`/`cfg`/`run` (GV.C06.strongCouplingVars, GV.C06.execute) or `grp`/`chain` (GV.C06.innerSettings, requiresMda, chainExecute) or `stage`/`seq` (GV.C06.seqExecute)",
                     },
                 )
 
@@ -1596,8 +1797,13 @@ def run(ctx) -> Result:
         "Newton-type ones directly on several strongly coupled groups) x process disciplines (members wrapped in an MDOChain / "
         "MDOParallelChain / converged sub-MDA given as ONE discipline) x settings given as keywords, as a settings model, through "
         "create_mda, inner settings as a dictionary or as the Pydantic model of the inner class x acceleration x relaxation x 6 "
-        "residual scalings x listing order x tolerance x warm start / second execution; a case is non-trivial when the MDA "
-        "iterates at least twice (or is a SciPy / chained solve); distinct by system+settings+inputs"
+        "residual scalings x listing order x tolerance x warm start / second execution; MDASequential over 2-3 sub-MDA objects "
+        "built with their OWN tolerance / max_mda_iter (a starter looser than the sequence that reaches its tolerance, "
+        "budget-limited, tighter; last stage at least as accurate as the sequence); inner settings carrying a coarse tolerance / "
+        "budget of their own; sessions of 2-4 MDA objects alive in one process (accurate and coarse, constructions, "
+        "settings.tolerance / settings.max_mda_iter assignments and executions interleaved); a case is non-trivial when the MDA "
+        "iterates at least twice (or is a SciPy / chained solve), a session when it has a judged object; distinct by "
+        "system+settings+inputs(+history)"
     )
     res.assumptions = [
         "MDANewtonRaphson (hence MDAGSNewton and sequences with a Newton stage) rejects weakly coupled disciplines with a documented ValueError ('use MDAChain'): such systems are solved through MDAChain; the direct use is only probed",
@@ -1605,6 +1811,8 @@ def run(ctx) -> Result:
         "tolerances relative to an initial residual are >= 2^-30 (2^-16 inside MDASequential / MDAGSNewton) so that tol*scale stays above the resolution of floats",
         "SciPy Broyden runs that GEMSEO itself reports as not converged are not judged",
         "an MDA used as a discipline of another MDA is given a tolerance 64 times tighter than the outer one (its answer is the discipline's output)",
+        "the last sub-MDA of an MDASequential has a tolerance <= the tolerance of the sequence and 100 iterations (MDASequential cascades nothing: the tolerance of a looser last stage is the requested one)",
+        "in a session only the executions of accurate objects (max_mda_iter >= 60 at that time) are judged, at the tolerance held by the object at that time; coarse objects (1-3 iterations) only live next to them",
     ]
     rng = ctx.rng
     corpus = load_corpus()
@@ -1623,7 +1831,9 @@ def run(ctx) -> Result:
     while done < n_rep and time.time() < ctx.deadline:
         cases = []
         while len(cases) < min(batch, n_rep - done):
-            c = gen_case(rng, kind="lin", cls=rng.pick(["MDAJacobi", "MDAGaussSeidel", "MDANewtonRaphson", "MDAChain"]), grouped=False)
+            c = gen_case(
+                rng, kind="lin", cls=rng.pick(["MDAJacobi", "MDAGaussSeidel", "MDANewtonRaphson", "MDAChain", "MDAChain", "MDASequential"]), grouped=False
+            )
             if replayable(c):
                 cases.append(c)
         evaluate(res, cases, rng)
@@ -1642,11 +1852,21 @@ def run(ctx) -> Result:
             cls=rng.pick(["MDAGaussSeidel", "MDAGaussSeidel", "MDAQuasiNewton", "MDAQuasiNewton", "MDASequential", "MDAJacobi", "MDANewtonRaphson", "MDAGSNewton"]),
         ),
     ]
+    # sequences whose sub-MDAs carry their own tolerance / budget (loose starter that reaches its tolerance, ...)
+    streams.append(lambda: gen_case(rng, shape=rng.pick(["strong", "strong", "groups"]), cls="MDASequential"))
     for mk in streams:
         done = 0
         while done < n_t and time.time() < ctx.deadline:
             evaluate(res, [mk() for _ in range(min(batch, n_t - done))], rng)
             done += batch
+    # several MDA objects alive in one process: constructions, assignments and executions interleaved
+    from harness import c06_session
+
+    n_s = 400 if ctx.thorough else 36
+    done = 0
+    while done < n_s and time.time() < ctx.deadline:
+        c06_session.evaluate(res, [c06_session.gen_session(rng) for _ in range(min(50, n_s - done))])
+        done += 50
     evaluate(res, [gen_probe(rng) for _ in range(100 if ctx.thorough else 20)], rng, scope=False)
     return res
 
@@ -1654,6 +1874,10 @@ def run(ctx) -> Result:
 def replay(path: str) -> int:
     data = json.loads(open(path).read())
     rp = data.get("replay", data)
+    if "session" in rp:
+        from harness import c06_session
+
+        return c06_session.replay(rp)
     case = rp["case"]
     obs = run_impl(case)
     bad = oracle(case, obs)
